@@ -315,6 +315,35 @@ Proof.
     destruct (peval_call_one_element _ _ _ _ _ E) as [np [_ [Hc _]]]. exact Hc.
 Qed.
 
+(* items: the elements a cst stands for (None = no element yet, an open list = its elements, anything else = one element) *)
+Definition items (c : value) : list value :=
+  match c with VNone => [] | VList false l => l | v => [v] end.
+
+Lemma cstadd_items c v : v <> VNone -> islist v = false -> items (cstadd c v) = items c ++ [v].
+Proof.
+  intros Hn Hl. destruct c as [| | | | |cl l| | |]; cbn [cstadd items]; try reflexivity.
+  - destruct v as [| | | | |vl vs| | |]; try reflexivity; [contradiction|]. destruct vl; [reflexivity|discriminate].
+  - destruct cl; reflexivity.
+Qed.
+
+(* the exact guard of "a rule's value is one element of its caller": it holds unless the value is None (first element
+   vanishes: D1b) or an open list (an override of several elements: D1a) *)
+Theorem peval_call_one_element_exact n r f v f' :
+  peval' (S n) (Call r) f = Ok v f' -> v <> VNone -> islist v = false ->
+  items (cst f') = items (cst f) ++ [v].
+Proof.
+  intros E Hn Hl. destruct (peval_call_one_element _ _ _ _ _ E) as [np [_ [_ [_ Hc]]]].
+  rewrite Hc. apply cstadd_items; assumption.
+Qed.
+
+(* without an override the value of a rule body is never an open list *)
+Lemma fold_closed f : ast_get (fast f) key_at = None -> islist (fold f) = false.
+Proof.
+  unfold fold. intros H. destruct (fast f) as [|kv a].
+  - destruct (cst f) as [| | | | |cl l| | |]; try reflexivity. destruct cl; reflexivity.
+  - rewrite H. reflexivity.
+Qed.
+
 End Laws.
 
 (* ---- "a rule's value is always ONE element of its caller" fails in one corner: an override whose value is an open
